@@ -21,7 +21,8 @@ const OPS: [&[u8]; 8] = [b"ZZ", b"ARG", b"ARG 999", b"ARG 1 2", b"CUST", b"SYST:
 const OP_NAMES: [&str; 8] = ["undefined-header", "arity-fault", "conversion-fault", "syntax-fault", "custom-error", "NEXT?", "COUNT?", "valid-command"];
 /// parse-level faults end their message (the rest of the message is discarded)
 const OP_ENDS_MESSAGE: [bool; 8] = [true, false, false, true, false, false, false, false];
-const EXTRA_OPS: [&[u8]; 4] = [b"CUSTB?", b"HW", b"VAL?", b"SYSTEM:ERROR:NEXT?"];
+const EXTRA_OPS: [&[u8]; 9] =
+    [b"CUSTB?", b"HW", b"VAL?", b"SYSTEM:ERROR:NEXT?", b"CUSTZ", b"CUSTP", b"CUSTN", b"CUSTO", b"syst:err:next?"];
 
 #[derive(Default)]
 struct Acc {
@@ -35,6 +36,8 @@ struct Acc {
     empty_reads: u64,
     by_cap: BTreeMap<usize, u64>,
     direct_ops: u64,
+    tight_buffer_cases: u64,
+    tight_buffer_failed_reads: u64,
 }
 
 /// Executes one operation sequence, each op its own message (or grouped), and
@@ -73,7 +76,8 @@ fn run_sequence(acc: &mut Acc, iface: &IfaceDesc, cap: usize, ops: &[&[u8]], gro
     par::case_begin(&stream, [cap as u64, 0, 0, 0]);
     let out = if via_process {
         let chunks = super::c05::random_chunks(rng, stream.len());
-        (iface.process)(&ProcSpec { stream: &stream, n: 1024, chunks: &chunks, pend_seed: 0, fault_at: None })
+        let pend = if rng.chance(1, 3) { rng.next() | 1 } else { 0 };
+        (iface.process)(&ProcSpec { stream: &stream, n: 1024, chunks: &chunks, pend_seed: pend, fault_at: None })
     }
     else {
         (iface.run)(&RunSpec { inputs: &refs, writer: WriterKind::Rec(None), pend_seed: 0 })
@@ -155,10 +159,10 @@ fn replay(
         if skip_after_fault && failed_msg == Some(msg_of[oi]) {
             continue;
         }
-        if matches!(*op, b"CUST" | b"CUSTB?" | b"HW" | b"OK" | b"VAL?") {
+        if matches!(*op, b"CUST" | b"CUSTB?" | b"HW" | b"OK" | b"VAL?" | b"CUSTZ" | b"CUSTP" | b"CUSTN" | b"CUSTO") {
             calls_expected += 1;
         }
-        let is_next = *op == b"SYST:ERR?" || *op == b"SYSTEM:ERROR:NEXT?";
+        let is_next = *op == b"SYST:ERR?" || *op == b"SYSTEM:ERROR:NEXT?" || *op == b"syst:err:next?";
         let is_count = *op == b"SYST:ERR:COUN?";
         let is_val = *op == b"VAL?";
         let is_fault = !(is_next || is_count || is_val || *op == b"OK");
@@ -263,7 +267,9 @@ fn random_shard(ctx: &Ctx, devs: &[(usize, &'static IfaceDesc)], shard: usize, c
     let mut rng = Rng::fork(ctx.seed, 0xC09_0000 + shard as u64);
     for _ in 0..cases {
         let (cap, iface) = *rng.pick(devs);
-        let len = rng.range(6, 40);
+        // mostly 6..40 operations; now and then a long history (300..700) so that counters and
+        // ring indices wrap many times
+        let len = if rng.chance(1, 40) { rng.range(300, 700) } else { rng.range(6, 40) };
         let mut ops: Vec<&[u8]> = Vec::new();
         for _ in 0..len {
             // biased towards faults so that large queues overflow
@@ -280,13 +286,133 @@ fn random_shard(ctx: &Ctx, devs: &[(usize, &'static IfaceDesc)], shard: usize, c
         let key = ops.concat();
         acc.distinct_set.insert(fnv(&key) ^ cap as u64);
         run_sequence(&mut acc, iface, cap, &ops, &grouping, rng.chance(1, 3), &mut rng);
+        if rng.chance(1, 4) {
+            tight_buffer_case(&mut acc, iface, cap, &mut rng);
+        }
     }
     acc
 }
 
+/// Histories through `process::<16>`: the answer to NEXT? on a non-empty queue does not fit
+/// the response buffer, so that query fails itself.  That failure is an error like any other:
+/// it must arrive in the queue (one push, whatever its number) and be counted and retrievable;
+/// nothing of the oversized answer reaches the adapter.  Whether the entry NEXT? was about to
+/// return is consumed by the failed attempt is not stated: both readings are accepted.
+fn tight_buffer_case(acc: &mut Acc, iface: &IfaceDesc, cap: usize, rng: &mut Rng) {
+    const N: usize = 16;
+    let alphabet: [&[u8]; 7] = [b"ZZ", b"ARG 999", b"CUSTZ", b"SYST:ERR?", b"SYST:ERR:COUN?", b"OK", b"SYST:ERR?"];
+    let len = rng.range(3, 14);
+    let ops: Vec<&[u8]> = (0..len).map(|_| *rng.pick(&alphabet)).collect();
+    let mut stream = Vec::new();
+    for o in &ops {
+        stream.extend_from_slice(o);
+        stream.push(b'\n');
+    }
+    let chunks = super::c05::random_chunks(rng, stream.len());
+    par::case_begin(&stream, [cap as u64, 16, 0, 0]);
+    let out = (iface.process)(&ProcSpec { stream: &stream, n: N, chunks: &chunks, pend_seed: 0, fault_at: None });
+    par::case_end();
+    if out.crashed() {
+        acc.res.skipped_crash += 1;
+        return;
+    }
+    acc.res.evaluations += 1;
+    acc.tight_buffer_cases += 1;
+    let pushes: Vec<(i16, String)> = out.log.iter().filter_map(|e| if let Ev::Error { num, text, .. } = e { Some((*num, text.clone())) } else { None }).collect();
+    let mut outbytes: Vec<u8> = Vec::new();
+    for e in &out.log {
+        if let Ev::AWrite(b) = e {
+            outbytes.extend_from_slice(b);
+        }
+    }
+    let mut last_err = String::new();
+    for consumed_by_failed_read in [true, false] {
+        let mut m = QueueModel::new(cap);
+        let mut want: Vec<u8> = Vec::new();
+        let mut pi = 0usize;
+        let mut failed_reads = 0u64;
+        let mut bad: Option<String> = None;
+        for (k, o) in ops.iter().enumerate() {
+            let mut expect_push = |m: &mut QueueModel, pi: &mut usize, why: &str| -> Option<String> {
+                match pushes.get(*pi) {
+                    Some((n, t)) => {
+                        m.push(*n, t);
+                        *pi += 1;
+                        None
+                    }
+                    None => Some(format!("operation {} (\"{}\"): {} - no error reached the queue", k, esc(o), why)),
+                }
+            };
+            match *o {
+                b"ZZ" | b"ARG 999" | b"CUSTZ" => bad = expect_push(&mut m, &mut pi, "a faulty message"),
+                b"OK" => {}
+                b"SYST:ERR:COUN?" => want.extend_from_slice(format!("{}\n", m.count()).as_bytes()),
+                _ => {
+                    let (n, t) = m.items.front().cloned().unwrap_or((0, String::new()));
+                    let answer = format!("{},\"{}\"\n", n, t);
+                    if answer.len() <= N {
+                        m.pop();
+                        want.extend_from_slice(answer.as_bytes());
+                    }
+                    else {
+                        failed_reads += 1;
+                        if consumed_by_failed_read {
+                            m.pop();
+                        }
+                        bad = expect_push(&mut m, &mut pi, "its answer does not fit the response buffer, the query failed");
+                    }
+                }
+            }
+            if bad.is_some() {
+                break;
+            }
+        }
+        if bad.is_none() && pi != pushes.len() {
+            bad = Some(format!("{} errors reached the queue, {} operations failed", pushes.len(), pi));
+        }
+        if bad.is_none() && want != outbytes {
+            bad = Some(format!("adapter received \"{}\", the model answers \"{}\"", esc(&outbytes), esc(&want)));
+        }
+        match bad {
+            None => {
+                acc.tight_buffer_failed_reads += failed_reads;
+                return;
+            }
+            Some(b) => {
+                if consumed_by_failed_read {
+                    last_err = b;
+                }
+            }
+        }
+    }
+    acc.res.add_violation(Violation {
+        sig: format!("response-buffer-too-small-for-NEXT/cap{}", if cap >= 4 { "4+".to_string() } else { cap.to_string() }),
+        summary: format!("capacity {}, process::<16>: [{}]: {}", cap, ops.iter().map(|o| esc(o)).collect::<Vec<_>>().join(" | "), last_err),
+        witness: J::obj(vec![
+            ("iface", J::s(iface.name)),
+            ("capacity", cap.into()),
+            ("stream", J::s(esc(&stream))),
+            ("stream_hex", J::s(hex(&stream))),
+            ("n", N.into()),
+            ("chunks", J::Arr(chunks.iter().take(64).map(|c| J::Int(*c as i64)).collect())),
+            ("pushes_seen", J::strs(pushes.iter().map(|(n, t)| format!("{},{}", n, t)))),
+            ("output", J::s(esc(&outbytes))),
+        ]),
+    });
+}
+
 /// The ErrorQueue trait driven directly against the model.
 fn direct<const N: usize>(acc: &mut Acc, rng: &mut Rng, steps: usize) {
-    let errs = [Error::UndefinedHeader, Error::DataTypeError, Error::Custom(5, "five"), Error::QueueOverflow, Error::HardwareError];
+    let errs = [
+        Error::UndefinedHeader,
+        Error::DataTypeError,
+        Error::Custom(5, "five"),
+        Error::QueueOverflow,
+        Error::HardwareError,
+        Error::Custom(-350, "custom, not the overflow marker"),
+        Error::Custom(0, "zero"),
+        Error::Custom(i16::MIN, "smallest"),
+    ];
     let mut q: StaticErrorQueue<N> = StaticErrorQueue::new();
     let mut m = QueueModel::new(N);
     for step in 0..steps {
@@ -346,7 +472,7 @@ pub fn run(ctx: &Ctx) -> PropResult {
         res.inconclusive = Some(e);
         return res;
     }
-    let caps = [1usize, 2, 3, 4, 10];
+    let caps = [1usize, 2, 3, 4, 5, 8, 10, 16];
     let devs: Vec<(usize, &'static IfaceDesc)> = caps.iter().map(|c| (*c, ctx.iface(&format!("qdev{}", c)))).collect();
     for (c, d) in &devs {
         assert_eq!(d.queue_cap, *c);
@@ -374,7 +500,12 @@ pub fn run(ctx: &Ctx) -> PropResult {
                     direct::<2>(&mut acc, &mut rng, 900);
                     direct::<3>(&mut acc, &mut rng, 900);
                     direct::<4>(&mut acc, &mut rng, 900);
+                    direct::<5>(&mut acc, &mut rng, 900);
+                    direct::<7>(&mut acc, &mut rng, 900);
+                    direct::<8>(&mut acc, &mut rng, 900);
                     direct::<10>(&mut acc, &mut rng, 900);
+                    direct::<16>(&mut acc, &mut rng, 900);
+                    direct::<64>(&mut acc, &mut rng, 900);
                 }
                 acc
             }
@@ -383,6 +514,7 @@ pub fn run(ctx: &Ctx) -> PropResult {
     );
     let mut by_cap: BTreeMap<usize, u64> = BTreeMap::new();
     let (mut distinct, mut ov, mut ovr, mut nx, mut ct, mut em, mut dops) = (0u64, 0, 0, 0, 0, 0, 0);
+    let (mut tight, mut tight_failed) = (0u64, 0u64);
     for acc in accs {
         distinct += acc.distinct + acc.distinct_set.len() as u64;
         ov += acc.overflows;
@@ -391,6 +523,8 @@ pub fn run(ctx: &Ctx) -> PropResult {
         ct += acc.count_checked;
         em += acc.empty_reads;
         dops += acc.direct_ops;
+        tight += acc.tight_buffer_cases;
+        tight_failed += acc.tight_buffer_failed_reads;
         for (k, v) in acc.by_cap {
             *by_cap.entry(k).or_default() += v;
         }
@@ -410,6 +544,8 @@ pub fn run(ctx: &Ctx) -> PropResult {
     res.cov("pushes_into_a_full_queue", ov);
     res.cov("reads_after_an_overflow", ovr);
     res.cov("direct_trait_operations", dops);
+    res.cov("histories_through_a_16_byte_response_buffer", tight);
+    res.cov("next_queries_whose_answer_did_not_fit_and_had_to_be_queued_as_an_error", tight_failed);
     res.cov("sequences_by_capacity", J::Obj(by_cap.into_iter().map(|(k, v)| (k.to_string(), J::Int(v as i64))).collect()));
     res.samples.truncate(5);
     let described: Vec<J> = vec![J::s("cap 2: ZZ | ARG | CUST | SYST:ERR? | SYST:ERR:COUN? | SYST:ERR? | SYST:ERR?  ->  -113 / 1 / -350 / 0,\"\"")];
